@@ -53,8 +53,8 @@ _extra = {'constructions': 0, 'resort_cases': 0, 'halo_rows_compared': 0, 'parti
 
 def config(tier):
     if tier == 'quick':
-        return dict(shards=6, examples=400, numba_threads=1, boundscheck=False, shrink_calls=60, soft_s=85)
-    return dict(shards=12, examples=2000, numba_threads=1, boundscheck=[False, False, True], shrink_calls=300, soft_s=800)
+        return dict(shards=6, examples=400, numba_threads=4, boundscheck=False, shrink_calls=60, soft_s=85)  # 4 numba threads: _searchsorted_parallel really runs in parallel blocks
+    return dict(shards=12, examples=2000, numba_threads=4, boundscheck=[False, False, True], shrink_calls=300, soft_s=800)
 
 
 def extra_evidence():
